@@ -3,7 +3,10 @@
 A CPU *case* (everything the Rust harness needs, no generators involved on replay):
     {"kind": "cpu", "image": [[addr, hex], ...], "imem": [[off, val], ...], "regs": {...},
      "timer": {"enabled": b, "mti": n, "sti": n}, "keys": [matrix codes], "warm": w,
-     "slice": s | absent (runner default), "calls": [n1, n2, ...], "fresh_runner": bool}
+     "slice": s | absent (runner default), "calls": [n1, n2, ...], "fresh_runner": bool,
+     "interludes": [script | None, ...]}   # optional, aligned with calls: before call i (and before a fresh
+                                           # runner is built) block_on of a scripted future that sleeps and
+                                           # emits events runs on the thread (c18_sched: interlude scripts)
 Twin A: w x CoreRuntime::step, then AsyncRuntimeRunner::run_instructions(n_i) for each call.
 Twin B: w x CoreRuntime::step, then CoreRuntime::step(n_i) for each call.
 """
@@ -15,6 +18,7 @@ from typing import Any, Dict, List, Optional, Tuple
 from .core import HarnessError, Violation, mix32
 from . import gen_enc as G
 from .gen_state import Stream
+from . import c18_sched as SC
 
 # hand-encoded templates, checked against the repository's decoder by self_test()
 TEMPLATES: Dict[str, Tuple[str, str]] = {
@@ -235,8 +239,39 @@ def variants(st: Stream, prog: Dict[str, Any], n_variants: int) -> List[Tuple[Di
             labels.append("runner:fresh-per-call" if case["fresh_runner"] else "runner:reused")
         if 0 in case["calls"]:
             labels.append("count:0")
+        # other users of the thread's scheduler channel before a call (separate stream: the programs and the
+        # variants above stay what they were)
+        ist = Stream(st.s, v, 0xB10C)
+        if ist.chance(2, 5):
+            final_ok = ist.chance(1, 4)
+            inter: List[Optional[Dict[str, Any]]] = []
+            for _ in range(ncalls):
+                inter.append(gen_interlude(ist, final_ok) if ist.chance(3, 4) else None)
+            if any(x is not None for x in inter):
+                case["interludes"] = inter
+                labels.append("block_on-before-call:" + (SC.interlude_flavour(inter) or "no-events"))
         out.append((case, labels))
     return out
+
+
+# The only event id a block_on future emits in CPU cases is 1, the id AsyncRuntimeRunner uses internally for "CPU
+# task done" (events of a foreign future are not inputs of the runner, so it must be harmless).  Any other id could
+# reach the machine state only by making the runner wait forever for a "done" event that was crowded out of the
+# one-event slot -- non-termination is something the harness can only report as exit 2 after its watchdog, never as
+# a verdict, so it is not generated.
+BO_EVENT_IDS = (1,)
+
+
+def gen_interlude(st: Stream, final_ok: bool) -> Dict[str, Any]:
+    ops = []
+    for _ in range(st.below(4)):
+        ops.append([st.choice((0, 1, 1, 2, 3, 9, SC.YIELD)), st.choice(BO_EVENT_IDS) if st.chance(1, 2) else None])
+    e: Dict[str, Any] = {"ops": ops}
+    if st.chance(1, 2):
+        e["se"] = st.choice(BO_EVENT_IDS)
+    if not final_ok:
+        e = SC.strip_final_emit(e)
+    return e
 
 
 def make_pool(seed: int, n: int) -> Tuple[List[bytes], int]:
@@ -302,9 +337,11 @@ def check_cpu(case: Dict[str, Any], obs: Dict[str, Any]) -> Tuple[List[Violation
     if obs["start"][0] != obs["start"][1] or obs["warm_err"][0] != obs["warm_err"][1]:
         raise HarnessError(f"c18: twins differ before the experiment starts: {_diff_state(*obs['start'])}")
     reused = not case.get("fresh_runner", False)
+    inter = case.get("interludes") or []
     for i, (s, a) in enumerate(zip(obs["sync"], obs["async"])):
         where = "AsyncRuntimeRunner::run_instructions" + \
-                (", later call on a reused runner" if (i > 0 and reused) else "")
+                (", later call on a reused runner" if (i > 0 and reused) else "") + \
+                SC.interlude_suffix(inter[:i + 1], none="")
         fields: List[str] = []
         if s["err"] != a["err"]:
             fields.append("error result")
